@@ -264,6 +264,9 @@ func exTotality(r *hx.Result, rng *rand.Rand, rounds int) {
 				depth = 3000
 			}
 			in = []byte(strings.Repeat("T{a=", depth) + "1" + strings.Repeat("}", depth))
+			if i%13 == 3 { // cut off inside: error recovery walks the whole context chain (quadratic, ~1 s at depth 1500)
+				in = in[:4*min(depth, 1500)]
+			}
 		}
 		var got map[string]string
 		var perr error
